@@ -855,6 +855,15 @@ func (fr *Frame) evalCall(sc *Scope, x *ECall) Val {
 			bs = append(bs, fr.byteAt(sc, b, IAdd(i, IntT(k))))
 		}
 		return scalar(types.Typ[types.Uint32], app(BVSort(32), "concat", bs...))
+	case "BE64":
+		argn(2)
+		b := fr.evalExpr(sc, x.Args[0])
+		i := fr.toIdx(fr.evalExpr(sc, x.Args[1]))
+		var bs []Term
+		for k := int64(0); k < 8; k++ {
+			bs = append(bs, fr.byteAt(sc, b, IAdd(i, IntT(k))))
+		}
+		return scalar(types.Typ[types.Uint64], app(BVSort(64), "concat", bs...))
 	case "fresh":
 		// fresh(x): x's object was allocated during this call
 		argn(1)
